@@ -871,7 +871,7 @@ func postprocessIOSACL(c *cmd) {
 	// Skip "deny|permit"
 	parts := tokens[1:]
 	// Variables 'tokens' and 'parts' use same backing store.
-	postprocessACLParts(c, parts)
+	postprocessACLParts(c, parts, true)
 	tokens = slices.DeleteFunc(tokens, func(w string) bool { return w == "" })
 	c.parsed = strings.Join(tokens, " ")
 }
@@ -890,12 +890,13 @@ func postprocessASAACL(c *cmd) {
 	// Skip "access-list $NAME extended deny|permit"
 	parts := tokens[4:]
 	// Variables 'tokens' and 'parts' use same backing store.
-	postprocessACLParts(c, parts)
+	postprocessACLParts(c, parts, false)
 	tokens = slices.DeleteFunc(tokens, func(w string) bool { return w == "" })
 	c.parsed = strings.Join(tokens, " ")
 }
 
-func postprocessACLParts(c *cmd, parts []string) {
+// IOS uses wildcard mask, ASA uses netmask.
+func postprocessACLParts(c *cmd, parts []string, wildcard bool) {
 	proto := ""
 
 	// Abort if less than n words are remaining in incomplete ACL line.
@@ -977,10 +978,14 @@ func postprocessACLParts(c *cmd, parts []string) {
 					}
 					parts = parts[1:]
 				} else if len(parts) >= 2 {
+					hostMask, anyMask, any := "255.255.255.255", "0.0.0.0", "any4"
+					if wildcard {
+						hostMask, anyMask, any = anyMask, hostMask, "any"
+					}
 					switch parts[1] {
-					case "0.0.0.0":
-						parts[0], parts[1] = "any4", ""
-					case "255.255.255.255":
+					case anyMask:
+						parts[0], parts[1] = any, ""
+					case hostMask:
 						parts[0], parts[1] = "host", parts[0]
 					}
 					parts = parts[2:]
